@@ -23,7 +23,8 @@ use crate::metric::{Metric, ALL_METRICS};
 use crate::search;
 use crate::with_metric;
 
-pub const SENTINEL: u32 = 4_000_000_000;
+/// the item that carries the version number: the largest id there is (range ends are where scans go wrong)
+pub const SENTINEL: u32 = u32::MAX;
 
 fn project_all(ctx: &mut Ctx, d: &decode::RawDump, idx: u16, metric: Metric, dim: usize) -> Value {
     let dec = decode::decode_dump(d, &|_| Some(metric));
